@@ -198,6 +198,8 @@ pub fn check(fc: &FCase, st: &mut Stats) -> CheckResult {
         fc.fault,
         log.iter().filter(|e| e.call != Call::End).map(|e| (e.call, e.ok)).collect::<Vec<_>>()
     );
+    // from here on everything is a "later request" (see crash.rs): no answer for 90 s = not served
+    let _served = engine::deadline(90, "C05", "trait-fault", fc, &format!("{what}: later requests are not served: no answer within 90 s (the lock-wait budget is 5 s) - something the failed request held is still held"), true);
     if injected.is_empty() {
         // the plan pointed past the end of the request: nothing failed
         st.label("c05:fault-not-reached");
